@@ -985,7 +985,8 @@ func (it *interp) RunFunction(_ context.Context, name string, req *fnv1.RunFunct
 		it.fctx = rsp.GetContext()
 		it.round++
 	}
-	return rsp, nil
+	// Crossplane gets its own freshly decoded message, untouched by the interpreter.
+	return wire(rsp), nil
 }
 
 func (it *interp) applyEffects(effs []effect) {
